@@ -63,7 +63,8 @@ EW = {
     'pow1.5': (lambda x: x ** 1.5, _mono(lambda v: v ** 1.5), lambda lo, hi: lo > 0.2 and hi < 8),
 }
 
-BIN = {'add': lambda a, b: a + b, 'sub': lambda a, b: a - b, 'mul': lambda a, b: a * b, 'div': lambda a, b: a / b}
+BIN = {'add': lambda a, b: a + b, 'sub': lambda a, b: a - b, 'mul': lambda a, b: a * b, 'div': lambda a, b: a / b,
+       'pow': lambda a, b: a ** b}
 
 
 # element-wise functions the tracer can record (Function has a method / pb_* exists)
@@ -141,6 +142,24 @@ class Gen:
         if not self.ok_mag(iv):
             return False
         self.steps.append({'op': 'bin', 'fn': fn, 'a': a, 'b': b})
+        self.new(bshape(self.vars[a]['shape'], self.vars[b]['shape']), iv)
+        return True
+
+    def s_powbin(self):
+        """base ** exponent with both operands program values (forward evaluation only: the reverse sweep documents
+        NotImplementedError for a polynomial exponent)"""
+        a = self.pick(lambda v: v['iv'][0] > 0.3 and v['iv'][1] < 8)
+        if a is None:
+            return False
+        b = self.pick(lambda v: bshape(self.vars[a]['shape'], v['shape']) is not None and max(abs(v['iv'][0]), abs(v['iv'][1])) <= 3)
+        if b is None:
+            return False
+        la = (math.log(self.vars[a]['iv'][0]), math.log(self.vars[a]['iv'][1]))
+        e = _imul(la, self.vars[b]['iv'])
+        iv = (math.exp(e[0]), math.exp(e[1]))
+        if not self.ok_mag(iv):
+            return False
+        self.steps.append({'op': 'bin', 'fn': 'pow', 'a': a, 'b': b})
         self.new(bshape(self.vars[a]['shape'], self.vars[b]['shape']), iv)
         return True
 
@@ -325,6 +344,7 @@ class Gen:
                 v = self.new((), self.vars[v]['iv'])
             self.steps.append({'op': 'setitem', 'buf': buf, 'idx': [k], 'val': v})
             lo, hi = min(lo, self.vars[v]['iv'][0]), max(hi, self.vars[v]['iv'][1])
+            self.vars[buf]['iv'] = (lo, hi)             # keep current: the buffer itself may be picked as a source below
             if self.rng.random() < 0.3:
                 # read the entry back (a view of the buffer) and use it
                 self.steps.append({'op': 'getitem', 'a': buf, 'idx': [k], 'bare': True})
